@@ -294,6 +294,7 @@ def run_single(case: dict[str, Any], stats: Stats) -> list[Violation]:
     detail = {"outcome": {k: o.get(k) for k in ("kind", "ret", "exc", "fired")}, "stored_class": klass, "stored_len": len(stored), "bufsize": bs}
     out: list[Violation] = []
     if o["kind"] == "timeout":
+        stats.bump("no_verdict(step budget exceeded: termination is C15's subject)")
         return out
 
     def expected_image(records: list[ipsref.Record]) -> ipsref.Image | None:
